@@ -49,7 +49,7 @@ type c04Op struct {
 var (
 	c04T0, _ = ledger.ParseTime("2023-05-06T06:00:00Z")
 	c04T1, _ = ledger.ParseTime("2023-05-06T07:08:09.123456Z")
-	c04T2, _ = ledger.ParseTime("2023-05-07T00:00:00Z")
+	c04T2, _ = ledger.ParseTime("2100-01-01T00:00:00Z") // later than the wall clock of any run: a v2 read without pit (= now) must not show it yet
 	c04TOff  = func() ledger.Time { t, _ := ledger.ParseTime("2023-05-06T09:30:00+02:00"); return t }()
 	// log entries are inserted from 07:00:00 on, one second apart: t0 is back-dated, t1 / the offset one slightly ahead, t2 far ahead
 	c04Base = time.Date(2023, 5, 6, 7, 0, 0, 0, time.UTC)
@@ -89,7 +89,7 @@ func c04Ops(thorough bool) []c04Op {
 		tx("tx a->b 1, b->c 1 @t1", "l1", c04T1, metadata.Metadata{}, nil, false, p("a", "b", "X", 1), p("b", "c", "X", 1)),
 		tx("tx world->a 5 @t0 (back-dated)", "l1", c04T0, metadata.Metadata{}, nil, false, p("world", "a", "X", 5)),
 		tx("tx world->a 5 @t2 (future)", "l1", c04T2, metadata.Metadata{}, nil, false, p("world", "a", "X", 5)),
-		tx("tx world->a 5 +02:00 offset", "l1", c04TOff, metadata.Metadata{}, nil, false, p("world", "a", "X", 5)),
+		tx("tx world->a 2^63+1 +02:00 offset", "l1", c04TOff, metadata.Metadata{}, nil, false, ledger.NewPosting("world", "a", "X", new(big.Int).Add(new(big.Int).Lsh(big.NewInt(1), 63), big.NewInt(1)))),
 		tx("tx with metadata+reference+account metadata", "l1", c04T1, metadata.Metadata{"m": "1"}, map[string]metadata.Metadata{"a": {"k": "v"}, "z": {"only": "meta"}}, true, p("world", "a", "X", 1)),
 		{Name: "revert last unreverted tx", Ledger: "l1", Make: func(st *c04State) []*ledger.Log {
 			f := memstore.Fold(st.logs["l1"])
